@@ -461,4 +461,8 @@ def obligations(tier):
         for gam in ([Fraction(7, 5)] if tier == 'quick' else H.G_FULL):
             obs.append(SedovScale(g, gam))
             obs.append(SedovInterior(g, gam))
+    # public general-EOS wrapper: a call at time t after an arbitrary earlier call returns the interpolant of the self-similar table
+    # xd0 + t w_k of THIS t (stub driver, arbitrary node values)
+    from .C03 import GenEOSWrapper
+    obs.append(GenEOSWrapper('C10', repeat=True))
     return obs
